@@ -74,11 +74,18 @@ package server
 // headers are never consulted); with trustProxy and a non-empty trusted set, an untrusted
 // peer is identified by its own address.
 //@ spec func remoteHost(addr string) string = ite(libcalln(2, net.SplitHostPort, addr) == nil, libcalln(0, net.SplitHostPort, addr), addr)
+//@ ghost tproxies() map[string]bool
+//@ func loadTrustedProxies
+//@   trusted
+//@   modifies nothing
+//@   ensures result == tproxies()
+//@ spec func trustedPeer(host string) bool = has(tproxies(), host) && tproxies()[host]
 //@ func getClientIP
 //@   requires r != nil
 //@   modifies nothing
 //@   ensures !trustProxy ==> result == remoteHost(r.RemoteAddr)
-//@   callpre (http.Header).Get trustProxy
+//@   ensures trustProxy && len(tproxies()) > 0 && !trustedPeer(remoteHost(r.RemoteAddr)) ==> result == remoteHost(r.RemoteAddr)
+//@   callpre (http.Header).Get trustProxy && (len(tproxies()) == 0 || trustedPeer(remoteHost(r.RemoteAddr)))
 
 // Token bucket step (one request = one critical section under the captured mutex).
 // t0 = tokens of this client at lock time (a new client starts with a full bucket),
